@@ -9,7 +9,7 @@ import nodecheck
 from nodecheck import Obs, kv, parse_msg, parse_cfg
 
 PROP = "C10"
-MODULES = ["DV.Properties.C10", "DV.Properties.C10Conc"]
+MODULES = ["DV.Properties.C10", "DV.Properties.C10Conc", "DV.Properties.C10One"]
 KEEP = {"OUT": None, "APP": None}
 
 CFG = ("NODE host=node.local;realm=realm.local;idle=9999;"
